@@ -103,10 +103,13 @@ impl FilesToRead {
         }
     }
 
-    fn inner(&self) -> (&FileContent, &str, &Files) {
+    fn inner(&self) -> WriterResult<(&FileContent, &str, &Files)> {
         let FilesToRead { start_with_file, files } = self;
-        let content = files.map.get(start_with_file).unwrap();
-        (content, start_with_file, files)
+        let content = files
+            .map
+            .get(start_with_file)
+            .ok_or_else(|| WriterError::ImportNotFound(start_with_file.clone()))?;
+        Ok((content, start_with_file, files))
     }
 }
 
@@ -116,7 +119,7 @@ impl XmlReader {
     /// # Errors
     /// Returns an error if the XSD/WSDL is invalid
     pub fn read_xml(files_to_read: &FilesToRead) -> WriterResult<RustDocument> {
-        let (content, start_with_file, files) = files_to_read.inner();
+        let (content, start_with_file, files) = files_to_read.inner()?;
 
         // the processed flags only have a meaning within one run; a previous run on the same
         // `FilesToRead` must not make this one skip files
